@@ -1,5 +1,6 @@
 import DdsModel.Reader
 import DdsModel.Drv.C09
+import DdsModel.TrapLoopsBlock
 namespace Dds.Drv.C01
 open Dds Dds.Stream Dds.Reader Dds.Drv.C09
 
@@ -303,9 +304,77 @@ def runX (t : List String) : String :=
     | _, _, _, _ => "bad-case"
   | _ => "bad-case"
 
+/-! ### `G` cases: one giant full decode (regression tie of F17)
+
+The answer `ok <surface bytes>` is what `C01.decode_loops_trapfree` proves for every size; on top of that the driver
+EVALUATES the mirror where the width matters: for the block family with a channel conversion the first and the last
+chunk of `ChannelConversionBuffer::process_blocks` (`TrapLoops.convBlockChunkT` with the saturating addition of the
+repaired line) on the first block line.  With the unrepaired addition the last chunk of a 4 294 966 273-pixel line is
+`none` (`C01.f17_unrepaired_traps`). -/
+
+def GIANT_MEM_CAP : Nat := 8 * 1024 * 1024 * 1024
+
+def giantChannels : String → Option Unc.Channels
+  | "gray" => some .gray | "alpha" => some .alpha | "rgb" => some .rgb | "rgba" => some .rgba | _ => none
+def giantPsz : String → Option Nat
+  | "u8" => some 1 | "u16" => some 2 | "f32" => some 4 | _ => none
+
+/-- native channels of the decoder `get_decoder` picks for a target (same precision): exact match if the set has one -/
+def giantNative (name : String) (target : Unc.Channels) : Unc.Channels :=
+  if name.startsWith "BC4" ∨ name == "R1_UNORM" then .gray
+  else if name.startsWith "BC5" ∨ name.startsWith "BC6H" ∨ name == "BC3_UNORM_RXGB" ∨ name == "BC3_UNORM_NORMAL" then .rgb
+  else if name == "BC2_UNORM" ∨ name == "BC3_UNORM" then (if target == .rgb then .rgb else .rgba)
+  else if name.startsWith "BC" ∨ name.startsWith "ASTC" then .rgba
+  else .rgb   -- packed 4:2:2 formats
+
+def giantBlkFn (name : String) (bw bh : Nat) : TrapLoops.BlkFn :=
+  if name == "R1_UNORM" then .eight
+  else if name.startsWith "BC" then .four
+  else if bw == 2 ∧ bh == 1 then .two
+  else .general bw bh
+
+/-- first and last chunk of `process_blocks` on the first block line of a tight `w × h` view -/
+def giantBlockOk (name : String) (bw bh bpb : Nat) (target : Unc.Channels) (psz w h : Nat) : Bool :=
+  let native : TrapLoops.Color := ⟨giantNative name target, psz⟩
+  if native.ch = target then true else
+  let p := giantBlkFn name bw bh
+  let rows := min bh h
+  let nbpp := native.bpp
+  let obpp := (TrapLoops.Color.mk target psz).bpp
+  let pitch := w * obpp
+  let enc : TrapLoops.Sl := ⟨.line, 0, divCeil w bw * bpb⟩
+  let out : TrapLoops.Sl := ⟨.out, 0, (rows - 1) * pitch + w * obpp⟩
+  let bufW := TrapLoops.BUFFER_BYTES / (nbpp * rows)
+  let pref := bufW - bufW % bw
+  if pref = 0 then false else
+  let chunk := TrapLoops.convBlockChunkT (fun a b => some (TrapLoops.satAdd32 a b)) native target p bpb (fun _ => false)
+    bpb bw nbpp obpp rows pref w pitch ⟨w, 0, 0, rows⟩ enc out
+  (chunk 0).isSome && (chunk ((w - 1) / pref * pref)).isSome
+
+def runG (t : List String) : String :=
+  match t with
+  | [name, w, h, ch, pr] =>
+    match lookupFormat name, w.toNat?, h.toNat?, giantChannels ch, giantPsz pr with
+    | some fam, some w, some h, some target, some psz =>
+      if w = 0 ∨ h = 0 ∨ w ≥ U32 ∨ h ≥ U32 then "bad-case" else
+      let outBytes := w * h * (TrapLoops.Color.mk target psz).bpp
+      match fam.px.surfaceBytes w h with
+      | none => "MemoryLimitExceeded"
+      | some bytes =>
+        if outBytes + bytes > GIANT_MEM_CAP then "skip"
+        else if checkLikelyOverflow fam w h = false then "MemoryLimitExceeded"
+        else
+          let ok := match fam with
+            | .block bw bh bpb => giantBlockOk name bw bh bpb target psz w h
+            | _ => true
+          if ok then s!"ok {bytes}" else "panic"
+    | _, _, _, _, _ => "bad-case"
+  | _ => "bad-case"
+
 def runC01 (line : String) : String :=
   match toks line with
   | "X" :: t => runX t
+  | "G" :: t => runG t
   | _ => "bad-case"
 
 end Dds.Drv.C01
